@@ -8,7 +8,17 @@ from ..common import GLOBAL_TRUSTED_BASE
 from ..model import call_many
 from ..pool import guarded, run_cases
 
-THEOREMS = ["C01_default_in_prose", "C01_default_announced_once", "C01_default_stripped", "C01_quote_idempotent", "C01_example"]
+THEOREMS = ["C01_default_in_prose", "C01_default_announced_once", "C01_default_stripped", "C01_quote_idempotent", "C01_example",
+            "C01_rest_scan_lossless", "C01_rest_scan_splits_at_tokens", "C01_rest_emit_canonical", "C01_rest_parse_canonical",
+            "C01_rest_roundtrip", "C01_rest_example"]
+# no " of " / " or ": those make _set_name_and_type infer a type from the prose (parse_adhoc_doc_for_typ, C17's subject), outside Model/RestDoc.v
+REST_WORDS = ["the", "size", "within", "buffer", "in", "bytes", "name", "used", "for", "lookup", "how", "many", "items", "(optional)", "e.g.", "a-b",
+              "x_y", "[units]", "100%", "fast;", "slow,", "path/to", "it's", '"quoted"', "param", "type", "return", "rtype", "3.5", "N/A", "é"]
+REST_NAMES = ["a", "alpha", "beta_2", "x", "dataset_name", "K", "_private", "kw", "n0", "type", "param", "returns", "self"]
+REST_TYPES = ["int", "str", "float", "bool", "List[str]", "Optional[int]", "Dict[str, int]", "Literal['a', 'b']", "Union[int, str]",
+              "Callable[[int], str]", "np.ndarray", "Tuple[int, ...]"]
+SCAN_ALPHABET = [":param", ":type", ":return", ":rtype", ":cvar", ":ivar", ":var", ":raises", ":", "s", " ", "\n", "x", "param", "type", "::", ":r", ":p",
+                 "```", "a:", ":returns:", ":rtype:", "é"]
 STYLES = ("rest", "google", "numpydoc")
 DOCS = ["the value", "first item to use", "the name shown to the user.", "size in bytes,", "extra flag", "base directory",
         "a description long enough to be wrapped by the word wrapper when it is rendered with an indentation level"]
@@ -168,10 +178,71 @@ def sdd_impl(c):
     return r, text, qs
 
 
+def rest_text(rng):
+    return " ".join(rng.choice(REST_WORDS) for _ in range(rng.randint(1, 7)))
+
+
+def rest_entry(rng):
+    k = rng.random()
+    if k < 0.5:
+        return [rest_text(rng), rng.choice(REST_TYPES)]
+    if k < 0.8:
+        return [rest_text(rng), None]
+    return [None, rng.choice(REST_TYPES)]
+
+
+def rest_case(rng):
+    """a description of the domain of theorem C01_rest_roundtrip: clean prose, distinct plain names, at least one parameter"""
+    ps = [[n, rest_entry(rng)] for n in rng.sample(REST_NAMES, rng.randint(1, 5))]
+    return {"doc": rest_text(rng), "params": ps, "ret": rest_entry(rng) if rng.random() < 0.5 else None,
+            "scan": "".join(rng.choice(SCAN_ALPHABET) for _ in range(rng.randint(0, 14)))}
+
+
+def rest_impl(c):
+    from collections import OrderedDict
+
+    from cdd.docstring.emit import docstring
+    from cdd.shared.docstring_parsers import _scan_phase_rest, parse_docstring
+    from cdd.shared.docstring_utils import ARG_TOKENS, RETURN_TOKENS
+
+    ent = lambda e: {k: v for k, v in (("doc", e[0]), ("typ", e[1])) if v is not None}
+    ir = {"name": None, "doc": c["doc"], "params": OrderedDict((n, ent(e)) for n, e in c["params"]),
+          "returns": None if c["ret"] is None else OrderedDict((("return_type", ent(c["ret"])),))}
+    text = docstring(ir, docstring_format="rest", word_wrap=False, emit_types=True, emit_default_doc=False)
+    back = parse_docstring(text, emit_default_doc=False)
+    shape = lambda r: [r["doc"], [[n, [v.get("doc"), v.get("typ")]] for n, v in r["params"].items()],
+                       None if not r["returns"] else [r["returns"]["return_type"].get("doc"), r["returns"]["return_type"].get("typ")]]
+    extra = sorted({k for v in back["params"].values() for k in v} - {"doc", "typ"})
+    scan = lambda t: [[bool(a), b] for a, b in _scan_phase_rest(t, ARG_TOKENS.rest, RETURN_TOKENS.rest)]
+    return {"text": text, "back": shape(back), "extra_keys": extra, "scan_text": scan(text), "scan_wild": scan(c["scan"])}
+
+
 def worker(batch):
-    out = {"n": 0, "hops": 0, "clean": 0, "items": [], "corr": [], "sdd": 0}
+    out = {"n": 0, "hops": 0, "clean": 0, "items": [], "corr": [], "sdd": 0, "rest": 0}
     sdds = []
+    rests = [p for k, p in batch if k == "rest"]
+    if rests:
+        impl = [guarded(rest_impl, c, 20) for c in rests]
+        ok = [(c, v) for c, (st, v) in zip(rests, impl) if st == "ok"]
+        for c, (st, v) in zip(rests, impl):
+            if st != "ok":
+                out["items"].append(("C01/rest-domain/raises", {"detail": v}, c))
+        if ok:
+            want = [[c["doc"], c["params"], c["ret"]] for c, _v in ok]
+            m_emit = call_many("rest_emit", [[True] + w for w in want])
+            m_parse = call_many("rest_parse", [v["text"] for _c, v in ok])
+            m_scan = call_many("rest_scan", [v["text"] for _c, v in ok])
+            m_wild = call_many("rest_scan", [c["scan"] for c, _v in ok])
+            for (c, v), w, me, mp, ms, mw in zip(ok, want, m_emit, m_parse, m_scan, m_wild):
+                out["rest"] += 1
+                if v["back"] != w or v["extra_keys"]:
+                    out["items"].append(("C01/rest-domain/roundtrip", {"want": w, "got": v["back"], "extra_keys": v["extra_keys"], "text": v["text"]}, c))
+                for stage, a, b in (("emit", v["text"], me), ("parse", v["back"], mp), ("scan", v["scan_text"], ms), ("scan-any-text", v["scan_wild"], mw)):
+                    if a != b:
+                        out["corr"].append({"stage": "RestDoc " + stage, "input": c, "impl": a, "model": b})
     for kind, payload in batch:
+        if kind == "rest":
+            continue
         if kind == "ir":
             out["n"] += 1
             st, v = guarded(check_case, payload, 180)
@@ -222,9 +293,10 @@ def collect(ctx, n_ir, n_sdd):
         style = STYLES[i % 3]
         work.append(("ir", (gen_ir(rng, style), style)))
     work += [("sdd", sdd_case(rng)) for _ in range(n_sdd)]
+    work += [("rest", rest_case(rng)) for _ in range(n_sdd)]
     work += [("sweep", (rng.choice(["workers", "n", "batch_size"]), 5, "int")), ("sweep", ("label", "x", "str")),
              ("sweep", ("clip", rng.choice([1e+20, 2.5e+16, 0.5]), "float"))]
-    agg = {"n": 0, "hops": 0, "clean": 0, "sdd": 0}
+    agg = {"n": 0, "hops": 0, "clean": 0, "sdd": 0, "rest": 0}
     items, corr = [], []
     for r in run_cases(worker, [work[i:i + 8] for i in range(0, len(work), 8)], chunk=1):
         if "harness_error" in r:
@@ -244,7 +316,7 @@ def run(ctx):
         ctx.item(cls, {"stage": "render as a docstring and parse it back", "clause": cls, "input": T.jsonable(ir) if ir else None, "detail": det})
     if not ctx.violations:
         if corr:
-            ctx.violation({"stage": "correspondence: Model/DefaultDoc.v vs cdd.shared.defaults_utils / pure_utils (%s)" % corr[0]["stage"],
+            ctx.violation({"stage": "correspondence: Model/DefaultDoc.v, Model/RestDoc.v vs the implementation (%s)" % corr[0]["stage"],
                            "detail": corr[:3], "n_disagreements": len(corr)}, no_input=True)
         elif not status["ok"]:
             ctx.violation({"stage": "proof", "theorem": status.get("failing_theorem"),
@@ -253,16 +325,20 @@ def run(ctx):
         "obligations": status["obligations"], "discharged": status["discharged"],
         "checker_cmd": coqbuild.CHECKER_CMD.replace("<id>", "C01"), "theorems": status["theorems"],
         "trusted_base": GLOBAL_TRUSTED_BASE + [
-            "the theorems cover how a default is written into the prose (set_default_doc, quote); the scanners/parsers of the three styles "
-            "and extract_default are not modelled (the ReST scanner lemma of prototypes/Scan.v was not carried into the development): "
-            "the round trip itself is evaluated on the implementation for every configuration, differences matched per class"],
+            "Model/RestDoc.v transcribes the ReST emitter (word_wrap off, indent 0, no _internal) and _scan_phase_rest / _parse_phase_rest; "
+            "interpolate_defaults, _set_name_and_type and extract_default are NOT in it and act as the identity on the theorem's domain "
+            "(clean colon-free prose without a default announcer, names not ending in kwargs): that is checked by the correspondence on "
+            "every run, not proved. Google / NumPy scanners and defaults in the prose are evaluated on the implementation only "
+            "(differences matched per class); set_default_doc / quote are modelled separately"],
         "evaluations": agg["hops"] + agg["sdd"], "distinct_nontrivial": agg["n"] + agg["sdd"],
         "rule": "IRs of the docstring-representable domain (scalars, Optional, Literal, List, Union, dotted names; int/float(+/-, 1e+20)/"
                 "bool/str/None/code-quoted defaults; suffix defaults for Google/NumPy) x 3 styles x emit_default_doc x emit_types x "
                 "word_wrap x parser keeps/strips the announcer (16 configurations per style); (doc, type, default, flag) tuples for the "
-                "set_default_doc/quote model",
+                "set_default_doc/quote model; (doc, 1..5 parameters, return entry) of the ReST theorem's domain + random texts over a token alphabet "
+                "for the scanner transcription",
         "interfaces": agg["n"], "round_trips": agg["hops"], "round_trips_without_any_difference": agg["clean"],
-        "set_default_doc_cases": agg["sdd"], "model_disagreements": len(corr), "traces_validated_against_impl": agg["sdd"],
+        "set_default_doc_cases": agg["sdd"], "rest_model_cases": agg["rest"], "model_disagreements": len(corr),
+        "traces_validated_against_impl": agg["sdd"] + 4 * agg["rest"],
         "samples": [T.jsonable(work[0][1][0])],
         "build": {k: status[k] for k in ("build_s", "forbidden")},
     }
